@@ -10,6 +10,9 @@ pub struct Divergence {
     pub kind: &'static str,
     pub trail: Vec<String>,
     pub why: String,
+    /// registry ids of the generated (>= 2 segment) types enclosing the point of divergence,
+    /// outermost first
+    pub enclosing: Vec<u32>,
 }
 
 impl Divergence {
@@ -28,12 +31,13 @@ pub struct Bisim<'a> {
     pub pairs: usize,
     pub opaque: usize,
     pub max_depth: usize,
+    stack: Vec<u32>,
 }
 
 type R = Result<(), Divergence>;
 
 fn div(kind: &'static str, trail: &[String], why: String) -> R {
-    Err(Divergence { kind, trail: trail.to_vec(), why })
+    Err(Divergence { kind, trail: trail.to_vec(), why, enclosing: vec![] })
 }
 
 pub fn is_phantom_type(cl: &Classifier, t: &syn::Type) -> bool {
@@ -62,7 +66,7 @@ pub fn prim_name(p: &TypeDefPrimitive) -> &'static str {
 
 impl<'a> Bisim<'a> {
     pub fn new(reg: &'a PortableRegistry, cm: &'a CModel, cl: &'a Classifier, check_index: bool) -> Self {
-        Bisim { reg, cm, cl, check_index, visited: HashSet::new(), pairs: 0, opaque: 0, max_depth: 0 }
+        Bisim { reg, cm, cl, check_index, visited: HashSet::new(), pairs: 0, opaque: 0, max_depth: 0, stack: vec![] }
     }
 
     /// Relate registry id `id` with the closed code type `c`.
@@ -72,6 +76,27 @@ impl<'a> Bisim<'a> {
     }
 
     fn rel_in(&mut self, id: u32, c: &syn::Type, trail: &mut Vec<String>) -> R {
+        let generated = self.reg.resolve(id).map(|t| t.path.segments.len() >= 2).unwrap_or(false);
+        if generated {
+            self.stack.push(id);
+        }
+        let r = self.rel_inner(id, c, trail);
+        let r = match r {
+            Err(mut d) => {
+                if d.enclosing.is_empty() {
+                    d.enclosing = self.stack.clone();
+                }
+                Err(d)
+            }
+            ok => ok,
+        };
+        if generated {
+            self.stack.pop();
+        }
+        r
+    }
+
+    fn rel_inner(&mut self, id: u32, c: &syn::Type, trail: &mut Vec<String>) -> R {
         self.max_depth = self.max_depth.max(trail.len());
         let Some(t) = self.reg.resolve(id) else {
             return div("missing-id", trail, format!("registry has no id {id}"));
@@ -264,6 +289,7 @@ impl<'a> Bisim<'a> {
                 kind: "path",
                 trail: trail.to_vec(),
                 why: format!("registry path {} vs code path {}", reg_path.join("::"), code_path.join("::")),
+                enclosing: vec![],
             });
         }
         let Some(item) = self.cm.items.get(code_path) else {
@@ -271,6 +297,7 @@ impl<'a> Bisim<'a> {
                 kind: "dangling",
                 trail: trail.to_vec(),
                 why: format!("no item emitted at {}", code_path.join("::")),
+                enclosing: vec![],
             });
         };
         if item.generics.len() != args.len() {
@@ -283,6 +310,7 @@ impl<'a> Bisim<'a> {
                     item.generics.len(),
                     args.len()
                 ),
+                enclosing: vec![],
             });
         }
         Ok(item)
